@@ -34,6 +34,10 @@ DT = datetime.datetime
 
 def numbers():
     out = list(range(-10, 11)) + [2 ** 31, -2 ** 31, 2 ** 31 - 1, 2 ** 53 - 1, -(2 ** 53 - 1), 10 ** 15, 123456789]
+    # integers beyond the doubles' exact range (as literals and overrides they are numbers like any other): neighbours that
+    # collapse to one double must still compare exactly
+    out += [2 ** 53, 2 ** 53 + 1, 2 ** 53 + 2, -(2 ** 53) - 1, -(2 ** 53), 12345678901234567, 12345678901234568, 10 ** 17, 10 ** 17 + 1,
+            2 ** 63, 2 ** 63 + 1, 10 ** 22, 10 ** 22 + 1]
     for k in (-2, -1, 0, 1, 2, 7):
         for j in range(1, 8):
             out.append(k + j / 8)
@@ -340,7 +344,8 @@ def run_shard(spec, rec):
         else:
             # a workbook stores a date as a date-time, integral floats as ints, '' as blank: keep what survives storage
             pairs = [(a, b) for a, b in pairs if all(not (isinstance(v, str) and v == '') and not (isinstance(v, dict) and '$d' in v)
-                                                     and not (isinstance(v, float) and (v == int(v) or abs(v) < 1e-300)) for v in (a, b))]
+                                                     and not (isinstance(v, float) and (v == int(v) or abs(v) < 1e-300))
+                                                     and not (isinstance(v, int) and not isinstance(v, bool) and abs(v) > 2 ** 53) for v in (a, b))]
         rnd = random.Random(env.derive_seed('c10', via))
         rnd.shuffle(pairs)
         n = 600 if rec.tier == 'quick' else 6000
@@ -360,7 +365,9 @@ def run_shard(spec, rec):
         near = st.tuples(st.integers(-50, 50), st.integers(0, 999), st.integers(0, 999)).map(
             lambda t: (float(f'{t[0]}.{t[1]:03d}'), float(f'{t[0]}.{t[2]:03d}')))
         txt = st.text(alphabet='abAB1. -eé_', max_size=5)
-        pair = st.one_of(st.tuples(num, num), near, st.tuples(txt, txt),
+        bigint = st.integers(2 ** 53, 2 ** 70)
+        bigpair = st.tuples(bigint, st.integers(-2, 2), st.booleans()).map(lambda t: ((t[0], t[0] + t[1]) if not t[2] else (-t[0], -t[0] + t[1])))
+        pair = st.one_of(st.tuples(num, num), near, bigpair, st.tuples(txt, txt),
                          st.tuples(st.just(BLANK), st.one_of(num, txt)), st.tuples(st.one_of(num, txt), st.just(BLANK)))
 
         def body(p):
